@@ -10,8 +10,8 @@ CHECKS = {
     'C01': ('explicit-state BFS of the real World to fixpoint (replay-based, canonical-key dedup) against a table model',
             'E1: all World operation histories over ids {1,2,3} x {A,B(A),X}, <=2 automatic ids per clear, explored to fixpoint under the coarse key and to a stated depth under the order-preserving key; every query family evaluated in every state',
             'CPython semantics; reference table model; coarse key drops dict order (DESIGN 2.5)', '3/C01'),
-    'C02': ('explicit-state BFS of the real World with dispatch toggles to fixpoint; per-instance callback ledger vs table model',
-            'E1: all histories of World operations x enable/disable over handler/non-handler component classes and 2 ids, postponed queue bounded, explored to fixpoint; ledger, is_handler and a probe event checked after every transition / in every state',
+    'C02': ('explicit-state BFS of the real World with dispatch toggles to fixpoint (per-instance callback ledger vs table model), plus exhaustive fault enumeration while postponed callbacks are released and a fixpoint over callbacks that disable dispatching',
+            'E1: all histories of World operations x enable/disable over handler/non-handler (some falsy) component classes and 2 ids, postponed queue bounded, explored to fixpoint; ledger, is_handler and a probe event checked after every transition / in every state. E2: <= 3 lifecycle ops while disabled x raise / re-disable-and-attach at every delivery position of the release. E1 (order-preserving key): a handler whose on_remove disables dispatching',
             'CPython semantics; harness keeps components alive; clear() while disabled excluded (documented conflict)', '3/C02'),
     'C05': ('explicit-state BFS of the real World to fixpoint: deferred deletion x every other operation x process, two-policy table model',
             'E1: deferred deletion mixed with every other World op on the same/other entity, deletion from inside a frame, deferred delete of a never-existing id, any number of process() calls, explored to fixpoint',
@@ -25,14 +25,14 @@ CHECKS = {
     'C03': ('explicit-state BFS of a real EventDispatcher to fixpoint over every configuration of scripted re-entrant callbacks x every listener iteration order; exhaustive enumeration of decorator programs',
             'E1: add/remove/dispatch histories to fixpoint for every assignment of re-entrant actions (remove self/other, add, nested dispatch) to 3 handlers x all 3! listener orders x 4 event names x 6 argument shapes, delivery multiset judged per dispatch frame; E3: every event_handler decorator program on forests of <= 4 classes',
             'CPython semantics; listener order owned through __hash__ of harness handlers (calibrated per process)', '3/C03'),
-    'C04': ('explicit-state BFS of a real EventDispatcher to fixpoint with a raise / nested disable injected at every delivery position of every release (deviation-bounded), global exactly-once-in-order ledger, deterministic step budget for termination',
-            'E1+E2: all interleavings of dispatch / enable / disable / add / remove listener with queue <= 5, every fault plan with <= 2 faults per release, explored to fixpoint; termination decided by a line budget on desper frames',
+    'C04': ('explicit-state BFS of a real EventDispatcher to fixpoint with a raise / disable / disable-then-dispatch / nested-release fault injected at every delivery position of every release (deviation-bounded), global exactly-once-in-order ledger, deterministic step budget for termination; exhaustive SimpleLoop.switch sequences',
+            'E1+E2: all interleavings of dispatch / enable / disable / add / remove listener (queue <= 5 with one fault, queue <= 2 with two faults, every single nested release), explored to fixpoint or a reported cap; termination decided by a line budget on desper frames; isolation probe (dispatchers hold their own events); every sequence of <= 4 direct loop.switch(handle, clear_current, clear_next) calls over worlds that load disabled with queued events',
             'CPython semantics; sys.settrace line budget (20000 lines) stands for non-termination', '3/C04'),
     'C10': ('exhaustive enumeration of drop points x callback actions x listener iteration orders on a real EventDispatcher and World',
             'E2: k <= 3 listeners, every subset dropped between operations, full product of per-callback actions (drop / remove / immediate delete / deferred delete of any listener) x all k! orders, followed by process and further dispatches; weak references of the harness prove release',
             'CPython reference counting (immediate finalisation at refcount 0)', '3/C10'),
     'C08': ('explicit-state BFS of a real CoroutineProcessor to quiescence/fixpoint against an independent-clock model updated online from hooks in scripted generator bodies',
-            'E1: <= 3 coroutines with every yield script of length <= 3 over {None,0,-1,0.5,1,2} (plus in-body spawns), every start point, every dt sequence over {0,0.5,1,2} until quiescence; set of bodies advanced per frame, relative order of runnable coroutines, early / late wake-ups',
+            'E1: <= 3 coroutines with every yield script of length <= 3 over {None,0,-1,0.5,1,2} (plus in-body spawns), every start point, every dt sequence over {0,0.5,1,2} until quiescence; parts with three overlapping waits, sleepers killed / restarted from outside and from inside bodies; set of bodies advanced per frame, relative order of runnable coroutines, early / late wake-ups',
             'CPython semantics; dyadic values keep float arithmetic exact', '3/C08'),
     'C09': ('explicit-state BFS of a real CoroutineProcessor to fixpoint over start/kill/restart/process issued from outside and from inside bodies, lifecycle state machine model, generic reachability for release',
             'E1: fixed sets of scripted generators (runnable, waiting, finishing, killing themselves / others, starting others), every interleaving of start / kill / process / bad-argument calls to fixpoint; state(), promise value and reachability from the processor checked after every transition',
